@@ -386,13 +386,30 @@ func gString(G []gnode) string {
 }
 
 // fileAt places content in a file set so that the file's base offset is `base`
+// earlyReaders: for even bases the reader is created BEFORE the file is added to its file set (a legal order of set-up, used
+// by the repository's own benchmark); readerFor returns that reader
+var earlyReaders = map[*text.File]*text.Reader{}
+
 func fileAt(content []byte, base int) (*text.File, *parsley.FileSet) {
 	f := text.NewFile("f", content)
 	if base <= 1 {
 		return f, parsley.NewFileSet(f)
 	}
+	if len(earlyReaders) > 64 {
+		earlyReaders = map[*text.File]*text.Reader{}
+	}
+	if base%2 == 0 {
+		earlyReaders[f] = text.NewReader(f)
+	}
 	pad := text.NewFile("pad", make([]byte, base-2))
 	return f, parsley.NewFileSet(pad, f)
+}
+
+func readerFor(f *text.File) *text.Reader {
+	if r, ok := earlyReaders[f]; ok {
+		return r
+	}
+	return text.NewReader(f)
 }
 
 func pairList(m map[[2]int]bool) [][]int {
